@@ -65,7 +65,7 @@ class Exc:
         else:
             self.frame = "outside"
             self.lib_raise = False
-        self.tb = [f"{f.filename.split(LIBDIR)[-1]}:{f.name}:{f.lineno}" for f in fr[-4:]]
+        self.tb = [f"{f.filename.split(LIBDIR)[-1]}:{f.name}:{f.lineno}" for f in fr[-10:]]
 
     def as_dict(self):
         return dict(type=self.type, msg=self.msg, frame=self.frame, lib_raise=self.lib_raise, tb=self.tb)
